@@ -364,7 +364,7 @@ static int mode_pool(long lifecycles, uint64_t seed, int maxworkers, int maxtask
 }
 
 // ---------------------------------------------------------------------------------------------- block builds
-static int mode_blocks(const std::string &input, long schedules, uint64_t seed, long delay_us, long only_threads, const std::string &only_cuts) {
+static int mode_blocks(const std::string &input, long schedules, uint64_t seed, long delay_us, long only_threads, const std::string &only_cuts, bool parallel_first) {
   using namespace libcsd_verif;
   std::vector<std::string> strs;
   {
@@ -397,6 +397,34 @@ static int mode_blocks(const std::string &input, long schedules, uint64_t seed, 
   }
   std::set<uint64_t> orders, assignments;
   long maxconc_seen = 0;
+  if (parallel_first) {
+    // the very first construction of this process is a parallel one (no single-threaded build has warmed up any lazily
+    // initialised shared table); the single-threaded reference is built afterwards
+    Params P;
+    P.p1 = 25; P.p2 = (long)std::max<size_t>(1, textlen / (4 + r.below(6))); P.p3 = only_threads > 0 ? (int)only_threads : 8;
+    g_delay_us.store(0); g_block_mode.store(0); g_nev.store(0);
+    char t[200];
+    snprintf(t, sizeof t, "schedule=first n=%zu cut=%ld overhead=25 threads=%ld (first construction of the process)", m.n, P.p2, P.p3);
+    obs::crumb("C09,C11", "blocks", t);
+    obs::line(std::string("L\t") + t);
+    obs::flush();
+    StringDictionary *d0 = build_dict(K_BLOCKS, P, m);
+    std::string img0 = save_image(d0);
+    Ctx c;
+    c.kind = K_BLOCKS; c.P = P; c.m = m; c.d = d0; c.state = "fresh"; c.rng = Rng(seed); c.ops = {"locate", "extract"}; c.samples_left = 0;
+    long v0 = obs::n_viol;
+    op_member(c);
+    if (obs::n_viol != v0) obs::violation("C09", "blocks", "wrong-answer", "threads", std::string("locate/extract wrong after a parallel build: ") + t);
+    delete d0;
+    P.p3 = 1;
+    StringDictionary *r0 = build_dict(K_BLOCKS, P, m);
+    std::string rimg0 = save_image(r0);
+    delete r0;
+    obs::count("eval.image_comparison");
+    obs::count("eval.block_build");
+    obs::count("cls.parallel_build_first");
+    if (img0 != rimg0) obs::violation("C09", "blocks", "image-differs", "threads", std::string("image of the first (parallel) build of the process differs from the single-threaded build: ") + t);
+  }
   for (long s = 0; s < schedules; s++) {
     unsigned long cut = cuts[r.below(cuts.size())];
     int overhead = (int)std::vector<int>{0, 10, 25, 100}[r.below(4)];
@@ -508,6 +536,7 @@ int main(int argc, char **argv) {
   std::string mode = "pool", out, input;
   long lifecycles = 100, schedules = 10, delay_us = 0, only_threads = 0;
   std::string only_cuts;
+  bool parallel_first = false;
   int maxworkers = 8, maxtasks = 64, window = 1;
   uint64_t seed = 1;
   for (int i = 1; i < argc; i++) {
@@ -524,13 +553,14 @@ int main(int argc, char **argv) {
     else if (a == "--window") window = atoi(val().c_str());
     else if (a == "--threads") only_threads = atol(val().c_str());
     else if (a == "--cuts") only_cuts = val();
+    else if (a == "--parallel-first") parallel_first = true;
     else if (a == "--seed") seed = strtoull(val().c_str(), NULL, 10);
     else { fprintf(stderr, "unknown arg %s\n", a.c_str()); return 2; }
   }
   obs::install(out.empty() ? NULL : out.c_str(), !(UNDER_ASAN || UNDER_TSAN));
   g_ev = new Ev[EVCAP];
   libcsd_verif::point_ref().store(on_point, std::memory_order_release);
-  int rc = mode == "pool" ? mode_pool(lifecycles, seed, maxworkers, maxtasks, delay_us, window) : mode_blocks(input, schedules, seed, delay_us, only_threads, only_cuts);
+  int rc = mode == "pool" ? mode_pool(lifecycles, seed, maxworkers, maxtasks, delay_us, window) : mode_blocks(input, schedules, seed, delay_us, only_threads, only_cuts, parallel_first);
   obs::count("violations", obs::n_viol);
   obs::dump_counters();
   obs::line("D\tok");
